@@ -162,12 +162,12 @@ func classify(err error) string {
 }
 
 type wcfg struct {
-	ma, bs   int
-	async    bool
-	timeout  time.Duration
-	pOk      int
-	pTemp    int
-	nparts   int
+	ma, bs  int
+	async   bool
+	timeout time.Duration
+	pOk     int
+	pTemp   int
+	nparts  int
 }
 
 // wscenario drives one Writer through a script.
@@ -431,6 +431,7 @@ func steered(kind int, r *rand.Rand, salt uint64) (string, string) {
 			select {
 			case <-s.done[s2]:
 			case <-time.After(watchdog()):
+				s.rec.add("to/%d", s2) // the cancelled call is still blocked
 			}
 		}
 	case 3:
